@@ -4,6 +4,7 @@ From VQ Require Import Model.Inventory.
 From VQ.Gen Require Import inv_rvq.
 Import ListNotations.
 Open Scope string_scope.
-Lemma pin_inv_rvq : inv_rvq =
+Definition pinned_inv_rvq : list (string * kind * bool) :=
   [].
+Lemma pin_inv_rvq : inv_rvq = pinned_inv_rvq.
 Proof. reflexivity. Qed.
